@@ -584,6 +584,14 @@ func genPipeDoc(r *Run, nd bool) (doc []byte, desc string) {
 		desc = fmt.Sprintf("%s size=%d", famNames[d.Fam], len(d.B))
 	}
 	doc = d.B
+	if !nd && c.Intn("edgews", 5) == 0 {
+		lead := []string{" ", "\n", "\t \r\n", "    "}[c.Intn("edgelead", 4)]
+		doc = append(append([]byte(lead), doc...), []string{"", "\n", " \r\n"}[c.Intn("edgetrail", 3)]...)
+		for i := range d.Sites {
+			d.Sites[i].off += len(lead)
+		}
+		d.B = doc
+	}
 	if !nd && c.Intn("emptybuffer", 14) == 0 {
 		// dense structurals, then a long token holding no structural: a later index buffer comes up empty
 		n := 8300 + c.Intn("ebprefix", 40000)
